@@ -97,6 +97,8 @@ func RandomSpec(r *sim.Rand) DocSpec {
 		sp.InheritVary = sp.TreeDepth >= 2 && r.Bool()
 	}
 	sp.ResIndirect = on(density)
+	sp.FontsInline = on(density / 2)
+	sp.PageResVary = sp.InheritAt == 0 && on(density)
 	sp.FontPartsIndirect = on(density)
 	if on(density / 2) {
 		sp.Rotate = sim.Pick(r, []int{90, 180, 270})
@@ -161,6 +163,8 @@ func (sp DocSpec) Features() []string {
 	add(sp.InheritAt >= 2 && sp.TreeDepth >= 2, "inherit=grandparent")
 	add(sp.InheritAt >= 1 && sp.InheritVary && sp.TreeDepth >= 2, "inherit=varied")
 	add(sp.ResIndirect, "res=indirect")
+	add(sp.FontsInline, "fonts=inline")
+	add(sp.PageResVary && sp.InheritAt == 0 && len(sp.FontKinds) > 1, "res=per-page")
 	add(sp.FontPartsIndirect, "fontparts=indirect")
 	add(sp.Rotate != 0, "rotate")
 	add(sp.KidsRef, "kids=ref")
@@ -509,6 +513,20 @@ func (sp DocSpec) Shrinks() []DocSpec {
 		return true
 	})
 	try(func(s *DocSpec) bool {
+		if !s.FontsInline {
+			return false
+		}
+		s.FontsInline = false
+		return true
+	})
+	try(func(s *DocSpec) bool {
+		if !s.PageResVary {
+			return false
+		}
+		s.PageResVary = false
+		return true
+	})
+	try(func(s *DocSpec) bool {
 		if !s.FontPartsIndirect {
 			return false
 		}
@@ -650,6 +668,11 @@ func SpecWithFeatures(features []string) (DocSpec, bool) {
 				sp.TreeDepth = 2
 			}
 			sp.InheritAt = 2
+		case f == "fonts=inline":
+			sp.FontsInline = true
+		case f == "res=per-page":
+			sp.PageResVary = true
+			sp.FontKinds = []int{FontStdWinAnsi, FontStdMacRoman}
 		case f == "res=indirect":
 			sp.ResIndirect = true
 		case f == "fontparts=indirect":
@@ -782,6 +805,10 @@ func (sp DocSpec) Without(f string) DocSpec {
 		c.InheritAt = 0
 	case f == "res=indirect":
 		c.ResIndirect = false
+	case f == "fonts=inline":
+		c.FontsInline = false
+	case f == "res=per-page":
+		c.PageResVary = false
 	case f == "fontparts=indirect":
 		c.FontPartsIndirect = false
 	case f == "rotate":
@@ -833,5 +860,6 @@ func (sp DocSpec) PlainStorage() DocSpec {
 	c.LenMode, c.LenInStm, c.Filter, c.Predictor, c.Split = 0, false, 0, 0, 0
 	c.ContentsArr, c.ContentsRef = false, false
 	c.TreeDepth, c.InheritAt, c.InheritVary, c.ResIndirect, c.FontPartsIndirect, c.KidsRef = 1, 0, false, false, false, false
+	c.FontsInline, c.PageResVary = false, false
 	return c
 }
